@@ -306,6 +306,21 @@ def _s3(n, m, k, db):
     return in_(n.tag, [k[0], k[1]]), lambda o, ns: OR(EQ(o.tag, k[0]), EQ(o.tag, k[1]))
 
 
+@shape("or_(n.tag == k0, n.tag == k1) (same column and operator, different literals)")
+def _s3b(n, m, k, db):
+    return or_(n.tag == k[0], n.tag == k[1]), lambda o, ns: True
+
+
+@shape("and_(n.tag >= k0, n.tag >= k1)", core=False)
+def _s3c(n, m, k, db):
+    return and_(n.tag >= k[0], n.tag >= k[1]), lambda o, ns: True
+
+
+@shape("or_(n.parent.tag == k0, n.leaf.v == k0) (same literal, different paths)", need_parent=True, need_leaf=True, core=False)
+def _s3d(n, m, k, db):
+    return or_(n.parent.tag == k[0], n.leaf.v == k[0]), lambda o, ns: True
+
+
 @shape("n.leaf.v > k0", need_leaf=True)
 def _s4(n, m, k, db):
     return n.leaf.v > k[0], lambda o, ns: o.leaf.v > k[0]
